@@ -187,6 +187,113 @@ def wrap(v, dtype):
     return ((v - lo) % m) + lo
 
 
+_IUF = {}
+# symbolic bitwise / shift operations: exact (Int2BV / BV2Int round trip through the bit-vector theory)
+# or, when False, shared uninterpreted functions
+EXACT_BITS = False  # Int2BV/BV2Int mixes came back unknown at 12 s on a 3-element shift; see DESIGN.md
+
+
+def _iuf(name, arity):
+    key = (name, arity)
+    if key not in _IUF:
+        _IUF[key] = z3.Function("iuf_" + name, *([z3.IntSort()] * arity), z3.IntSort())
+    return _IUF[key]
+
+
+def _to_unsigned(v, dt):
+    lo, hi = int_range(dt)
+    return int(v) - lo if False else (int(v) & ((1 << (np.dtype(dt).itemsize * 8)) - 1))
+
+
+def _from_unsigned(u, dt):
+    return wrap(int(u), dt)
+
+
+def i_bit(name, a, b, dt):
+    """and / or / xor on two's-complement integers of dtype dt.  Concrete operands are computed;
+    symbolic ones become a shared uninterpreted function per (operation, dtype) with the algebraic
+    identities that lowerings rely on resolved syntactically (x&x, x|0, x^0, x&0, commutation by
+    ordering the arguments)."""
+    if not is_sym(a) and not is_sym(b):
+        ua, ub = _to_unsigned(a, dt), _to_unsigned(b, dt)
+        r = {"and": ua & ub, "or": ua | ub, "xor": ua ^ ub}[name]
+        return _from_unsigned(r, dt)
+    allones = -1 if int_range(dt)[0] < 0 else int_range(dt)[1]
+    for x, y in ((a, b), (b, a)):
+        if not is_sym(y):
+            y = int(y)
+            if y == 0:
+                return 0 if name == "and" else x
+            if y == allones:
+                if name == "and":
+                    return x
+                if name == "or":
+                    return allones
+                return i_not(x, dt)
+    if is_sym(a) and is_sym(b) and a.eq(b):
+        return 0 if name == "xor" else a
+    xa = a if is_sym(a) else z3.IntVal(int(a))
+    xb = b if is_sym(b) else z3.IntVal(int(b))
+    if EXACT_BITS:
+        bits = np.dtype(dt).itemsize * 8
+        va, vb = z3.Int2BV(xa, bits), z3.Int2BV(xb, bits)
+        r = {"and": va & vb, "or": va | vb, "xor": va ^ vb}[name]
+        return z3.BV2Int(r, is_signed=int_range(dt)[0] < 0)
+    _used_specials.add("bit" + name)
+    if str(xa) > str(xb):  # commutative: canonical argument order
+        xa, xb = xb, xa
+    return _iuf(f"{name}_{np.dtype(dt).name}", 2)(xa, xb)
+
+
+def i_not(a, dt):
+    lo, hi = int_range(dt)
+    if lo < 0:
+        return wrap(-a - 1, dt) if is_sym(a) else wrap(-int(a) - 1, dt)
+    return (hi - a) if is_sym(a) else hi - int(a)
+
+
+def i_shift(kind, a, n, dt):
+    """kind in {left, right_logical, right_arithmetic}; the amount n must be concrete for an exact
+    encoding, otherwise an uninterpreted function is shared by both sides"""
+    bits = np.dtype(dt).itemsize * 8
+    lo, hi = int_range(dt)
+    if not is_sym(n):
+        n = int(n)
+        if n < 0 or n >= bits:
+            raise DomainError("shift amount outside [0, bits)")
+        if not is_sym(a):
+            ua = _to_unsigned(a, dt)
+            if kind == "left":
+                return _from_unsigned((ua << n) & ((1 << bits) - 1), dt)
+            if kind == "right_logical":
+                return _from_unsigned(ua >> n, dt)
+            return wrap(int(a) >> n, dt)
+        if n == 0:
+            return a
+        if kind == "left":
+            return wrap(a * (1 << n), dt)
+        if kind == "right_arithmetic" or lo == 0:
+            return a / (1 << n)  # z3 Int division by a positive constant is floor division
+        # logical right shift of a signed value: reinterpret as unsigned first
+        ua = z3.If(a < 0, a + (1 << bits), a)
+        return wrap(ua / (1 << n), dt)
+    xa = a if is_sym(a) else z3.IntVal(int(a))
+    if EXACT_BITS:
+        va, vn = z3.Int2BV(xa, bits), z3.Int2BV(n, bits)
+        r = (va << vn) if kind == "left" else (z3.LShR(va, vn) if (kind == "right_logical" or lo == 0) else (va >> vn))
+        return z3.BV2Int(r, is_signed=lo < 0)
+    _used_specials.add("shift")
+    if kind == "right_arithmetic" and lo < 0:
+        return _iuf(f"sar_{bits}", 2)(xa, n)
+    # left / logical right: one function per width over the UNSIGNED representation, so that a lowering
+    # that casts to the unsigned type, shifts and casts back builds the same term
+    if lo < 0:
+        xa = xa % (1 << bits)
+    kname = "shl" if kind == "left" else "shr"
+    r = _iuf(f"{kname}_{bits}", 2)(xa, n)
+    return wrap(r, dt) if lo < 0 else r
+
+
 def i_add(a, b, dt):
     if not is_sym(a) and not is_sym(b):
         return wrap(int(a) + int(b), dt)
